@@ -735,6 +735,13 @@ Section WithOracles.
 
   Definition run_ops (w : world) (ops : list op) : world := fold_left world_after ops w.
 
+  (* what an application observes of a history: per operation, the outcome and the writes *)
+  Fixpoint trace (w : world) (ops : list op) : list (outcome * list wevent) :=
+    match ops with
+    | [] => []
+    | o :: r => let x := step_op w o in (snd (fst x), snd x) :: trace (fst (fst x)) r
+    end.
+
   Lemma run_step_world {A} (c : M A) (k : A -> outcome) w faults :
     fst (fst (run_step c k w faults)) = s_w (snd (c {| s_w := w; s_log := []; s_faults := faults |})).
   Proof.
